@@ -223,7 +223,7 @@ def position_class(body, fault, log):
     if fault["kind"] == "none":
         return "none"
     if fault["kind"] == "command":
-        return "cmd:" + fault.get("command_kind", "?") + (":big-output" if fault.get("output") else "") + (":signal" if fault.get("signal") else "")
+        return "cmd:" + fault.get("command_kind", "?") + (":big-output" if fault.get("output") else "") + (":signal" if fault.get("signal") else "") + (":" + fault["stderr"] if fault.get("stderr") else "")
     if fault["kind"] == "docker-gone":
         return "docker-gone-then-second-build"
     if fault["kind"] == "spawn":
@@ -264,7 +264,11 @@ def run_tree(env, tidx, tree, sh):
     case0 = {"tree": tidx, "scenario": scenario, "as_nobody": env.as_nobody}
     rc, err, log, left = env.run(scenario)
     sh.evaluations += 1
-    expected_fail = cfg["expected"] == "failure"
+    def expects_failure(nodes):
+        return any((n["op"] == "rebuild" and n["config"]["expected"] == "failure") or expects_failure(n.get("body", [])) for n in nodes)
+    expected_fail = cfg["expected"] == "failure" or expects_failure(body)
+    if expects_failure(body):
+        sh.count("trees_with_a_rebuild_that_expects_failure")
     base_fault = {"kind": "none"}
     what = "scenario %r without injected fault" % (shape_of(body),)
     if expected_fail:
@@ -285,6 +289,8 @@ def run_tree(env, tidx, tree, sh):
     faults += [{"kind": "spawn", "seq": j, "command_kind": "pack build (spawn fails)"} for j in range(1, ncmds) if log[j]["kind"] == "pack build"]
     # a command that is killed by a signal instead of exiting with a code (every third position)
     faults += [{"kind": "command", "seq": j, "command_kind": log[j]["kind"], "signal": 9} for j in range(ncmds) if (j + tidx) % 3 == 0]
+    # `docker run` fails the way it does when the host port is taken (exit 125, "port is already allocated"; the container has been created)
+    faults += [{"kind": "command", "seq": j, "command_kind": log[j]["kind"], "stderr": "port-allocated"} for j in range(ncmds) if log[j]["kind"] == "docker run"]
     # docker cannot be spawned while the first build cleans up; it is back for the second, independent build of the same process,
     # whose own resources must be cleaned up as always (the first build's cannot be - they are not judged)
     if len(scenario["builds"]) > 1:
@@ -305,6 +311,9 @@ def run_tree(env, tidx, tree, sh):
                 plan["fail_output"] = fault["output"]
             if fault.get("signal"):
                 plan["signal"] = fault["signal"]
+            if fault.get("stderr"):
+                plan["fail_stderr"] = fault["stderr"]
+                plan["exit"] = 125
         elif fault["kind"] == "docker-gone":
             plan = {"remove_prog_after_seq": {"seq": fault["after_seq"], "prog": "docker"}}
             sc["restore_standins"] = True
@@ -316,7 +325,7 @@ def run_tree(env, tidx, tree, sh):
             sc["builds"][0]["config"]["preprocessor"]["panic"] = True
         rc, err, log2, left = env.run(sc, plan)
         sh.evaluations += 1
-        what = "scenario %r with %s" % (shape_of(body), ("command #%d (%s) %s%s" % (fault["seq"], fault["command_kind"], "killed by a signal" if fault.get("signal") else "failing", " with >64 KiB of non-ASCII output" if fault.get("output") else "")) if fault["kind"] == "command" else
+        what = "scenario %r with %s" % (shape_of(body), ("command #%d (%s) %s%s" % (fault["seq"], fault["command_kind"], "killed by a signal" if fault.get("signal") else "failing with 'port is already allocated'" if fault.get("stderr") else "failing", " with >64 KiB of non-ASCII output" if fault.get("output") else "")) if fault["kind"] == "command" else
                                         ("docker missing from PATH after command #%d until the second build starts" % fault["after_seq"]) if fault["kind"] == "docker-gone" else
                                         ("pack disappearing from PATH before command #%d" % fault["seq"]) if fault["kind"] == "spawn" else
                                         ("a panic at %r" % (fault["point"],)) if fault["kind"] == "panic" else "a panic in the app-dir preprocessor")
@@ -342,6 +351,10 @@ def run_tree(env, tidx, tree, sh):
             return
         sh.nontrivial.add((shape_of(body), cfg["expected"], bool(cfg.get("preprocessor")), position_class(body, fault, log)))
         sh.count("faults_injected")
+        if fault["kind"] == "command" and fault.get("command_kind") == "pack build" and fault["seq"] > 0 and expects_failure(body) and rc == 0:
+            sh.count("expected_failure_rebuilds_whose_closure_ran")
+        if fault.get("stderr"):
+            sh.count("docker_run_failures_with_port_already_allocated")
     sh.sample({"scenario": shape_of(body), "commands_in_baseline": [e["kind"] for e in log], "fault_positions": len(faults),
                "observed": "every detached container removed, image and both volumes removed exactly once after last use, TMPDIR empty - in the baseline and under every single fault"}, cap=1)
 
@@ -372,6 +385,12 @@ def trees(tier, seed):
     for i, b in enumerate(bs):
         variant = i % 4
         out.append((bconf(pre=variant in (1, 3), expected="failure" if variant == 2 and i % 8 == 2 else "success"), b))
+    # rebuilds that expect pack to fail: without a fault pack succeeds and the runner panics by itself; with the rebuild's pack build failing
+    # (one of the enumerated faults) the closure runs - and goes on to use the image, to rebuild again, to start containers
+    leaf, cont = leaf_nodes()[0], container_nodes(1)[1]
+    inner = [[], [leaf], [cont], [{"op": "rebuild", "config": bconf(), "body": [leaf]}], [leaf, {"op": "rebuild", "config": bconf(True), "body": [cont]}]]
+    xf = [(bconf(pre=k % 2 == 1), ([leaf] if k % 3 == 0 else []) + [{"op": "rebuild", "config": bconf(pre=k % 2 == 0, expected="failure"), "body": b}]) for k, b in enumerate(inner)]
+    out = out[:35] + xf + out[35:]
     r = vp.rng(seed, "c16")
     if tier == "quick" and len(out) > 160:
         keep = out[:40] + r.sample(out[40:], 120)
